@@ -31,6 +31,39 @@ def other(kind, strform, nul):
     return {'k': kind, 's': [ord(c) for c in strform], 'tnt': False, 'nul': nul, 'enc': ''}
 
 
+def strobj(s):
+    """a value that is not a string (an object, a subclass of int or float with its own __str__): inserted as str(value)"""
+    return {'k': 'strobj', 's': [(MK + ord(c)) if c in SPECIALS else ord(c) for c in s], 'tnt': False, 'nul': False, 'enc': ''}
+
+
+class _Labelled:
+    def __init__(self, s):
+        self._s = s
+
+    def __str__(self):
+        return self._s
+
+
+class _IntLabel(int):
+    def __new__(cls, s):
+        o = int.__new__(cls, 7)
+        o._s = s
+        return o
+
+    def __str__(self):
+        return self._s
+
+
+class _FloatLabel(float):
+    def __new__(cls, s):
+        o = float.__new__(cls, 0.05)
+        o._s = s
+        return o
+
+    def __str__(self):
+        return self._s
+
+
 MISSING = {'k': 'missing', 's': [], 'tnt': False, 'nul': False, 'enc': ''}
 KERR = {'k': 'kerr', 's': [], 'tnt': False, 'nul': False, 'enc': ''}      # defined, but evaluating it raises KeyError
 
@@ -87,6 +120,8 @@ def pyvalue(v):
         return None
     if k == 'kerr':
         return _raise_keyerror
+    if k == 'strobj':
+        return (_Labelled, _IntLabel, _FloatLabel)[len(s) % 3](s)
     if k == 'elist':
         return []
     raise ValueError(k)
